@@ -1,13 +1,14 @@
 #!/bin/sh
 # Builds the orchestrator and the instrumenter from files on disk only (offline).
 set -e
-cd /verif/tools
+V=$(cd "$(dirname "$0")" && pwd)
+cd $V/tools
 export GOFLAGS=-mod=mod GOPROXY=off GOSUMDB=off GOTOOLCHAIN=local
-mkdir -p /verif/bin /verif/evidence /verif/replays
-go1.26.8 build -o /verif/bin/vsim ./vsim
-if [ -d ./instr ]; then go1.26.8 build -o /verif/bin/instr ./instr; fi
+mkdir -p $V/bin $V/evidence $V/replays
+go1.26.8 build -o $V/bin/vsim ./vsim
+if [ -d ./instr ]; then go1.26.8 build -o $V/bin/instr ./instr; fi
 # warm the build cache for the harness module (std + tink + rapid), plain and -race
-cd /verif/sim
+cd $V/sim
 [ -f go.sum ] || cp /repo/go.sum go.sum
 go1.26.8 test -vet=off -count=1 -run '^$' ./... >/dev/null 2>&1 || true
 echo "vsim setup done"
